@@ -208,7 +208,8 @@ def rounds(ctx, shard, nshards):
             if ik in ("d:ldn", "d:mdn"):
                 n = min(n, 910675 - 400)      # day numbers in the last 606 days: C01's recorded finding
             if ik == "sx":
-                n = max(n, R.UNIX0 + 2)
+                # both sides of the epoch; the line reader takes 10 digits
+                n = max(R.UNIX0 - 100000, min(n, R.UNIX0 + 100000)) if rnd.random() < 0.5 else max(n, R.UNIX0 + 2)
             if ik.startswith("dt") or ik in ("t", "sx"):
                 s = rnd.choice((0, 0, 1, 59, 60, 3599, 3600, 43200, 86340, 86399, rnd.randrange(86400)))
             if ik == "t":
